@@ -582,6 +582,8 @@ class SymInt:
     def __add__(self, o):
         if type(o) is SymRatio or not _isnum(o):
             return NotImplemented
+        if type(o) is _float and o != _int(o):
+            return _frac_ratio(o) + self
         lo, co, vo, fo = _parts(o)
         if not lo:
             return SymInt(self.lin, self.c + co, self.v + vo, self.isf or fo)
@@ -595,6 +597,8 @@ class SymInt:
     def __sub__(self, o):
         if type(o) is SymRatio or not _isnum(o):
             return NotImplemented
+        if type(o) is _float and o != _int(o):
+            return -(_frac_ratio(o) - self)
         lo, co, vo, fo = _parts(o)
         if not lo:
             return SymInt(self.lin, self.c - co, self.v - vo, self.isf or fo)
@@ -606,6 +610,8 @@ class SymInt:
     def __rsub__(self, o):
         if type(o) is SymRatio or not _isnum(o):
             return NotImplemented
+        if type(o) is _float and o != _int(o):
+            return _frac_ratio(o) - self
         lo, co, vo, fo = _parts(o)
         lin = dict(lo)
         for k, a in self.lin.items():
@@ -873,6 +879,10 @@ def ENG_truediv(a, o):
     return SymInt({n: co // k for n, co in a.lin.items()}, a.c // k, a.v // k, True)
 
 
+class _Rescale(Exception):
+    pass
+
+
 class SymRatio:
     """num / den (den > 0 constant): the value of an int/int true division.
     Sound for |num| < 2**52 / den (the double nearest to num/den then has the
@@ -894,6 +904,16 @@ class SymRatio:
             return n // self.den
         return -((-n) // self.den)
 
+    def __int__(self):
+        if type(self.num) is SymInt:
+            raise Unsupported("int() of symbolic ratio outside shim")
+        return _int(self.num / self.den)
+
+    def __float__(self):
+        if type(self.num) is SymInt:
+            raise Unsupported("float() of symbolic ratio outside shim")
+        return self.num / self.den
+
     def __floor__(self):
         return self.num // self.den
 
@@ -904,12 +924,31 @@ class SymRatio:
         return SymRatio(-self.num, self.den)
 
     def _other(self, o):
+        """o scaled to this denominator (exact), or Unsupported"""
         if type(o) is SymRatio:
-            if o.den != self.den:
-                raise Unsupported("ratio arithmetic with different denominators")
-            return o.num
+            if o.den == self.den:
+                return o.num
+            if self.den % o.den == 0:
+                return o.num * (self.den // o.den)
+            raise Unsupported("ratio arithmetic with incompatible denominators")
+        if type(o) is _float and o != _int(o):
+            n, d = o.as_integer_ratio()
+            if self.den % d == 0:
+                return n * (self.den // d)
+            raise _Rescale(d)
         lo_, c, v, f = _parts(o)
         return (SymInt(lo_, c, v, False) if lo_ else c) * self.den
+
+    def _cmp(self, o, op):
+        import operator
+        fn = getattr(operator, op)
+        try:
+            return fn(self.num, self._other(o))
+        except _Rescale as r:
+            d = r.args[0]
+            n2 = o.as_integer_ratio()[0]
+            # num/den op n2/d  <=>  num*d op n2*den   (den, d > 0)
+            return fn(self.num * d, n2 * self.den)
 
     def __add__(self, o):
         return _ratio(self.num + self._other(o), self.den)
@@ -947,16 +986,16 @@ class SymRatio:
         return self.num != self._other(o)
 
     def __lt__(self, o):
-        return self.num < self._other(o)
+        return self._cmp(o, "lt")
 
     def __le__(self, o):
-        return self.num <= self._other(o)
+        return self._cmp(o, "le")
 
     def __gt__(self, o):
-        return self.num > self._other(o)
+        return self._cmp(o, "gt")
 
     def __ge__(self, o):
-        return self.num >= self._other(o)
+        return self._cmp(o, "ge")
 
     def __bool__(self):
         return bool(self.num != 0)
@@ -969,6 +1008,14 @@ class SymRatio:
 
     def __repr__(self):
         return "SymRatio(%r/%d)" % (self.num, self.den)
+
+
+def _frac_ratio(x):
+    """a fractional double as an exact rational proxy (den a power of two <= 2**30)"""
+    n, d = x.as_integer_ratio()
+    if d > 2 ** 30:
+        raise Unsupported("float with a long binary fraction: %r" % (x,))
+    return SymRatio(n, d)
 
 
 def _ratio(num, den):
